@@ -29,6 +29,12 @@ Call ==
     [] A.act = "translate" -> Translate(A.v)
     [] A.act = "rotate"    -> Rotate(A.R)
     [] A.act = "center"    -> CenterAt(A.a)
+    [] A.act = "rotstack"  -> RotateStack(A.Rs)
+    [] A.act = "trstack"   -> TranslateStack(A.vs)
+    [] A.act = "swc"       -> SrcWriteC(A.i, A.row)
+    [] A.act = "swq"       -> SrcWriteQ(A.i, A.row)
+    [] A.act = "ssw"       -> SrcSetW(A.i, A.w)
+    [] A.act = "str"       -> SrcTranslate(A.v)
     [] A.act = "vwc"       -> VWriteC(A.i, A.row)
     [] A.act = "vwq"       -> VWriteQ(A.i, A.row)
     [] A.act = "vsa"       -> VSetAtom(A.i, A.b, A.p)
@@ -64,7 +70,7 @@ TraceNext == Step \/ Finish \/ Stuck
 TraceSpec == TraceInit /\ [][TraceNext]_tvars
 
 Iters3  == {"i1", "i2", "i3"}
-OpsAll  == {"grow", "iter", "view", "xform", "dump", "io"}
+OpsAll  == {"grow", "iter", "view", "xform", "dump", "io", "copy"}
 FreeAll == {"qown", "qzero", "wsrc", "wone", "adopt", "refuse", "ext0ok", "ext0err"}
 NoPool  == <<>>
 NoSet   == {}
